@@ -202,7 +202,12 @@ contract(F, "CombinatorialSpecificationSearcher.add_rule", props=["C04", "C15"],
              # each child is tried for verification / symmetry-expanded under ITS OWN label
              "CombinatorialSpecificationSearcher.try_verify": ["label == end_labels[_i0]", "comb_class == children_of(rule)[_i0]"],
              "CombinatorialSpecificationSearcher._symmetry_expand": ["label == end_labels[_i0]",
-                                                                     "comb_class == children_of(rule)[_i0]"]},
+                                                                     "comb_class == children_of(rule)[_i0]",
+                                                                     "not (label in self.symmetry_expanded)"],
+             # inferral is switched off for a child only if the rule says it is not inferrable
+             "DefaultQueue.set_not_inferrable": ["not inferrable_of(rule)", "label == end_labels[_i0]"],
+             "DefaultQueue.add": ["workable_of(rule)", "label == end_labels[_i0]"],
+             "DefaultQueue.set_stop_yielding": ["ignore_parent_of(rule)", "label == start_label"]},
          loops={0: dict(invariant=["wf(self.classdb)", "wf(self.classqueue)", _CHILD_LBL,
                                    "len(self.classdb.comb_class_list) >= at('loop0', len(self.classdb.comb_class_list))",
                                    "forall(lambda i: implies(0 <= i and i < at('loop0', len(self.classdb.comb_class_list)), "
